@@ -35,8 +35,8 @@ TOL_WIN_DESIGN = 1e-13  # stored window vs documented firwin design, relative to
 TOL_WIN_SINC = 1e-11    # stored window vs hand-written windowed sinc, relative to max|w|
 
 TAPS = [1, 2, 3, 4]
-BRANCHES_Q = [2, 4, 6, 8, 16]
-BRANCHES_T = [2, 4, 6, 8, 10, 12, 16, 32]
+BRANCHES_Q = [2, 4, 6, 8, 14, 16]       # 14, 22, 26: transform lengths with a prime factor > 5
+BRANCHES_T = [2, 4, 6, 8, 10, 12, 14, 16, 22, 26, 32]
 WINDOWS_Q = ['hamming', 'hann', 'boxcar', 'blackman']
 WINDOWS_T = WINDOWS_Q + ['bartlett', 'blackmanharris', ['kaiser', 8.0]]
 BIG_Q = [(8, 64, 'hamming'), (4, 128, 'hann')]                       # realistic sizes, short streams
